@@ -32,6 +32,16 @@ def repo_path():
     return os.environ.get('VERIF_REPO', '/repo')
 
 
+def out_root():
+    """Evidence and replays of the registered commands go under the checkout; self-validation runs against a
+    scratch copy (VERIF_REPO set) must not overwrite them."""
+    if os.path.realpath(repo_path()) != os.path.realpath('/repo'):
+        d = os.environ.get('VERIF_SCRATCH_OUT', os.path.join(tempfile.gettempdir(), 'verif-selfcheck-out'))
+        os.makedirs(d, exist_ok=True)
+        return d
+    return ROOT
+
+
 def ensure_deps():
     """A restore brings back committed files only: install icontract/deal next to us if absent."""
     marker = os.path.join(DEPS, 'icontract')
@@ -209,7 +219,7 @@ def do_run(mod, prop, args, seed, scratch, t0):
     # replays for new violations
     replay_paths = {}
     if new_keys:
-        rdir = os.path.join(ROOT, 'replays', prop)
+        rdir = os.path.join(out_root(), 'replays', prop)
         os.makedirs(rdir, exist_ok=True)
         for key in new_keys:
             r = viols[key][0]
@@ -247,7 +257,7 @@ def do_run(mod, prop, args, seed, scratch, t0):
         'assumptions': list(getattr(mod, 'ASSUMPTIONS', [])), 'wall_s': round(wall, 2),
         'violations': len(new_keys),
     }
-    edir = os.path.join(ROOT, 'evidence')
+    edir = os.path.join(out_root(), 'evidence')
     os.makedirs(edir, exist_ok=True)
     if evaluations >= 1 and (len(sigs) + nt_disjoint) >= 2:
         with open(os.path.join(edir, prop + '.json'), 'w') as fd:
